@@ -66,11 +66,15 @@ def encode(I, v, path='$'):
         if getattr(v, 'is_array', False):
             raise Problem('%s: a numpy array is left in the dictionary (TypeError: Object of type ndarray is not '
                           'JSON serializable)' % path)
-        if getattr(v, 'np_int', False):
-            # list(arr)/tuple(arr) of an integer array: a Python list of numpy integers (arr.tolist() gives ints)
+        if getattr(v, 'np_int', False) or getattr(v, 'dtype', None) == 'int':
+            # list(arr)/tuple(arr)/[x for x in arr] of an integer array: a Python list of numpy integers
+            # (arr.tolist() gives ints).  The interpreter marks such a list np_int (or hands the element type on)
             raise Problem('%s: the list holds numpy integers (TypeError: Object of type int64 is not JSON '
                           'serializable; np.float64 is a float, np.int64 is not an int)' % path)
         return ListV([encode(I, x, '%s[%d]' % (path, i)) for i, x in enumerate(v.items)])
+    if getattr(v, 'np_int', False):
+        # a single numpy integer (an item of an integer array), should the interpreter mark scalars one day
+        raise Problem('%s: a numpy integer (TypeError: Object of type int64 is not JSON serializable)' % path)
     return v
 
 
@@ -423,6 +427,10 @@ def builders(I, repo):
         potentialenergy=D.sym('E_preset'), spin=D.sym('spin_preset')))
     add('RigidRotor[linear]', lambda: new(S + 'rot.RigidRotor', symmetrynumber=D.sym('sigma'),
                                           rot_temperatures=arr('th', 1), geometry='linear'))
+    # the documented default rot_temperatures=None (a monatomic species has no rotational temperatures): must be
+    # written as None and come back as None (fixed in f5552c6: list(None) in to_dict)
+    add('RigidRotor[monatomic, default rot_temperatures]',
+        lambda: new(S + 'rot.RigidRotor', symmetrynumber=D.sym('sigma'), geometry='monatomic'))
     add('RigidRotor[point group]', lambda: new(S + 'rot.RigidRotor', symmetrynumber='C2v',
                                                rot_temperatures=arr('th', 3), geometry='nonlinear'))
     add('ExtendedLSR[numeric reactions, default species]', lambda: new(
@@ -571,7 +579,7 @@ def check(run, repo):
             enc = encode(I, obj)
         except Problem as e:
             run.fail('TABLE.encode', ci.name, 'encode' + tail, 'encoding fails (%s%s): %s' % (label, after, e),
-                     mod_td, fn_td)
+                     mod_td, fn_td, sig=re.sub(r'#\d+', '', str(e)))
             return
         run.ok('TABLE.encode', label + tail)
         # decode
@@ -871,6 +879,12 @@ MUTANTS += [
     {'name': 'EmpiricalBase.to_dict forgets the model kept inside the species', 'expect': ('TABLE.roundtrip', 'Nasa'),
      'edits': [('pmutt/empirical/__init__.py', "            obj_dict['model'] = self.model.to_dict()\n",
                 "            self.model.to_dict()\n            obj_dict['model'] = None\n")]},
+    {'name': 'revert f5552c6: RigidRotor.to_dict applies list() to rot_temperatures=None',
+     'expect': ('TABLE.encode', 'RigidRotor'),
+     'edits': [('pmutt/statmech/rot.py',
+                "            'rot_temperatures': None if self.rot_temperatures is None \\\n"
+                "                                else list(self.rot_temperatures)\n",
+                "            'rot_temperatures': list(self.rot_temperatures)\n")]},
     {'name': 'RigidRotor.to_dict writes the geometry as nonlinear whatever it is', 'expect': ('TABLE.roundtrip', 'RigidRotor'),
      'edits': [('pmutt/statmech/rot.py', "            'geometry': self.geometry,\n            'rot_temperatures'",
                 "            'geometry': 'nonlinear',\n            'rot_temperatures'")]},
